@@ -26,7 +26,7 @@ from framework import Prop
 
 T = "memref<16xi32>"
 # which tree the model mirrors: "all" = with F17 + FC13a (common loop) + FC13b (views) [default, what the committed files
-# expect], "f17" = F17 only, "orig" = the pinned commit
+# expect], "f17" = F17 only, "orig" = the pinned commit, "d30" = "all" + the OPEN repair proposal fixes/FC13c (D30)
 MODEL_FIX = {"fixed": "all"}.get(os.environ.get("C13_MODEL", "all"), os.environ.get("C13_MODEL", "all"))
 
 # ------------------------------------------------------------------------------------------------------------
@@ -156,6 +156,7 @@ def abstract_block(case):
 def abstract_prog(case):
     """Block form (model JSON) derived from the abstract program alone, and the (view result, source) value pairs."""
     views = []
+    eff = []   # [op id, [memref operand values]] of the all-cores operations that access memory (repair FC13c)
     nb = case["nbuf"]
     val = {f"b{i}": i for i in range(nb)}
     val.update({"c0": nb, "c1": nb + 1, "lb": nb + 2, "ub0": nb + 3, "ub1": nb + 4, "st": nb + 5})
@@ -191,10 +192,12 @@ def abstract_prog(case):
                 res.append(leaf(DART_CLS[s[1]], [V(s[2]), V(s[3]), V(s[4])], [R(s[2]), R(s[3])], [R(s[4])]))
             elif k == "call":   # an external function: executed by every core, may read and write its argument
                 res.append(leaf("all", [V(s[1])], [R(s[1])], [R(s[1])]))
+                eff.append([res[-1][1], [V(s[1])]])
             elif k == "clear":  # snax.clear_l1
                 res.append(leaf("all", []))
             elif k == "use":
                 res.append(leaf("all", [V(b) for b in s[1]], [R(b) for b in s[1]], []))
+                eff.append([res[-1][1], sorted({V(b) for b in s[1]})])
             elif k == "sync":
                 res.append(["sync"])
             elif k == "alloc":
@@ -205,6 +208,7 @@ def abstract_prog(case):
                 res.append(["leaf", i, "all", [val[s[1]]], [], [], False])
             elif k == "dealloc":
                 res.append(leaf("all", [V(s[1])], [], [R(s[1])], True))
+                eff.append([res[-1][1], [V(s[1])]])
             elif k == "sel":
                 i = fresh_id()
                 val[s[1]] = nxt[0]
@@ -241,7 +245,7 @@ def abstract_prog(case):
 
     body = block(case["body"])
     body.append(leaf("all", []))  # func.return
-    return body, views
+    return body, views, eff
 
 
 # ------------------------------------------------------------------------------------------------------------
@@ -862,14 +866,16 @@ class C13(Prop):
         return {"out": out["out"], "in_real": out["in"], "low": out["low"]}
 
     def requests(self, case):
-        body, views = abstract_prog(case)
-        return [{"fn": "c13.insert", "args": {"body": body, "fix": MODEL_FIX, "views": views if MODEL_FIX == "all" else []}}]
+        body, views, eff = abstract_prog(case)
+        full = MODEL_FIX in ("all", "d30")
+        return [{"fn": "c13.insert", "args": {"body": body, "fix": "all" if full else MODEL_FIX, "views": views if full else [],
+                                              "eff": eff if MODEL_FIX == "d30" else []}}]
 
     def model(self, case, answers):
         a = answers[0]
         if "err" in a:
             return {"model_error": a["err"]}
-        if MODEL_FIX == "all" and not a["ok"]["rootVisible"] and not any(x[0] == "sel" for x in walk_stmts(case["body"])):
+        if MODEL_FIX in ("all", "d30") and not a["ok"]["rootVisible"] and not any(x[0] == "sel" for x in walk_stmts(case["body"])):
             return {"model_error": "generated program is outside the theorems' clause RootVisible"}
         if not a["ok"]["nodup"] or not a["ok"]["compoundAll"]:
             return {"model_error": "the block form violates the theorems' well-formedness predicate"}
